@@ -392,4 +392,22 @@ theorem gen_polynom_eq_model {α : Type} (O : Model.Poly.Ops α) (p q : List α)
   ⟨C20G.gen_eval_eq O p x, C20G.gen_add_eq O p q, C20G.gen_sub_eq O p q, C20G.gen_mul_by_scalar_eq O p x,
     C20G.gen_degree_of_eq O p⟩
 
+/-- ★ `div` (regenerated long division) IS the model's `div` for every operations record whose `inv` returns and
+    every dividend a `usize` can index: same quotient, the model's panic exactly when the regenerated no-panic
+    condition fails, never `hang` -/
+theorem gen_div_eq_model {α : Type} (O : Model.Poly.Ops α) (hinv : ∀ y, (O.inv y).isSome = true) (a b : List α)
+    (ha : a.length < 18446744073709551616) :
+    (∀ r, Model.Poly.div O a b = .ok r ↔
+      (Gen.Polynom.div_ok O.toX a b = true ∧ Gen.Polynom.div O.toX a b = r)) ∧
+    Model.Poly.div O a b ≠ .hang :=
+  C20G.gen_div_eq O hinv a b ha
+
+/-- ★ `serial_batch_inversion` (regenerated: both loops) IS the model's, on a result vector of the length of
+    `values` (what `batch_inversion` hands it) -/
+theorem gen_serial_batch_inversion_eq_model {α : Type} (O : Model.Poly.Ops α) (hinv : ∀ y, (O.inv y).isSome = true)
+    (values result : List α) (hlen : result.length = values.length) :
+    Model.Poly.serialBatchInversion O values = .ok (Gen.MathUtils.serial_batch_inversion O.toX values result) ∧
+    Gen.MathUtils.serial_batch_inversion_ok O.toX values result = true :=
+  C20G.gen_serial_batch_inversion_eq O hinv values result hlen
+
 end WinterProofs.C20
